@@ -12,7 +12,7 @@ import copy
 import random
 
 from ..core import Engine, RunResult
-from .. import docgen
+from .. import docgen, shared_state
 
 CONFIG_KINDS = {"construct", "enable", "disable", "opt_item", "opt_attr", "set", "configure", "render_rule", "use",
                 "bad_config", "ruler", "set_from", "construct_from", "hook", "highlight", "enable_only", "at_alt"}
@@ -27,6 +27,9 @@ STATEFUL_DOCS = [
     "~~s~~ <http://x.y> &amp; &#35;\n", "1. a\n\n   b\n2. c\n\n- d\n- e\n",
     "```py\nRAISE\n```\n", "```py a=1\nfine\n```\n\n~~~\nplain\n~~~\n", "`RAISE` x\n", "[a](/l1) ![b](/l2 't') <http://l3.x/>\n",
     "x @! y\n", "```\nok\n```\n\n```js\nRAISE\n```\n\n```\nafter\n```\n",
+    "\u043f\u0440\u0438*\u0441\u0442\u0440*\u0435\u043c \u00e9*\u00e9*\u00e9 \u65e5\u672c**\u8a9e**\u65e5\u672c\n",
+    "\u043f\u0440\u0438_\u0441\u0442\u0440_\u0435\u043c \u00e9_\u00e9_\u00e9 \u65e5\u672c__\u8a9e__\u65e5\u672c\n",
+    "\u043f\u0440\u0438~~\u0441\u0442\u0440~~\u0435\u043c \u00e9~~\u00e9~~\u00e9\n",
     "para\n***\npara\n# h\npara\n```\ncode\n```\npara\n> q\npara\n- l\npara\n    not code\n",
     "> q\n***\n> r\n# h\n> s\n- l\n\n- a\n***\n- b\n  # h\n\n[r]: /u\n'title\n# h'\n",
     "> quoted\n> - item\n>   @@!\n> more\n", "- a\n- b\n  @@!\n- c\n", "1. x\n\n   > y\n   @@!\n",
@@ -545,11 +548,18 @@ def expected_for(rec, order):
 
 def execute(rec: dict, res: RunResult) -> None:
     n_probes = len(rec["probes"])
+    # Process-global library state (module/class-level containers, rebinding globals, functools caches) is put back to
+    # what it was after the fixed warm-up before each phase: otherwise whatever an EARLIER run of this worker - or the
+    # expectation phase of this very run - left in a process-wide memo would "prime" it and hide exactly the pollution
+    # this property is about.  (Shallow: objects nested inside the shared presets are not touched, see PRESET_MUTATED.)
+    shared_state.reset_module_state()
     pre_obs = _presets_observed()
     pre_int = _presets_internal()
     # expectations BEFORE the history, twice in opposite orders (they must not influence each other either)
     e1 = expected_for(rec, list(range(n_probes)))
+    shared_state.reset_module_state()
     e2 = expected_for(rec, list(reversed(range(n_probes))))
+    shared_state.reset_module_state()
     if e1 != e2:
         pi = next(i for i in range(n_probes) if e1[i] != e2[i])
         res.fail("CROSS_INSTANCE", f"building fresh, identically configured instances in a different order changes "
@@ -713,6 +723,9 @@ class C12(Engine):
         from markdown_it import MarkdownIt
         MarkdownIt("js-default").enable(["replacements", "smartquotes"]).render(
             "# a\n\n*b* `c` [d](/e) ![f](/g) <h> &amp; \\* \"q\" --\n\n> - x\n\n| a |\n|---|\n| b |\n\n[r]: /u\n")
+        _presets_observed()
+        _presets_internal()
+        shared_state.snapshot_module_state()
 
     def gen(self, rng, i, tier):
         return gen(rng, tier)
